@@ -27,7 +27,7 @@ CHECKS = ("noeffect",)
 
 def sub_machine(col, budget, seed, tier, shard, nshards):
     M.run(col, SimWorld, CHECKS, M.base_cfg(limits="tight", custom_control=True, tx_limits=(None, 0, 3, 5000, 5000)), budget,
-          30 if tier == "quick" else 60, seed, tier, "requests", rule_weights={"txn": 3, "resubmit": 1})
+          30 if tier == "quick" else 60, seed, tier, "requests", rule_weights={"txn": 3, "resubmit": 1, "replace_through": 1})
 
 
 def sub_bulk(col, budget, seed, tier, shard, nshards):
